@@ -223,27 +223,10 @@ func (e *Engine) havocList(st *State, ctx *EvalCtx, cl *Clause) {
 
 func (e *Engine) havoc(st *State, ms *ModSet) {
 	if ms.All {
-		for k, h := range st.Heaps {
-			st.Heaps[k] = mapLeaves(h, func(t *Term) *Term { return Fresh("hv:"+k, t.Sort) })
-		}
-		for k, m := range st.Mems {
-			st.Mems[k] = mapLeaves(m, func(t *Term) *Term { return Fresh("hv:"+k, t.Sort) })
-		}
-		for k, g := range st.Ghost {
-			if strings.Contains(k, "!") {
-				continue
-			}
-			st.Ghost[k] = mapLeaves(g, func(t *Term) *Term { return Fresh("hv:"+k, t.Sort) })
-		}
-		for g, v := range st.Globs {
-			if e.cs.ConstGl[globKey(g)] {
-				continue
-			}
-			if _, ok := v.(*OpaqueV); ok {
-				continue
-			}
-			st.Globs[g] = mapLeaves(v, func(t *Term) *Term { return Fresh("hv:glob", t.Sort) })
-		}
+		e.havocHeaps(st, nil)
+		e.havocMems(st)
+		e.havocGhosts(st, func(k string) bool { return !strings.Contains(k, "!") }, "hv:")
+		e.havocGlobs(st)
 		st.HavocAll++
 		st.Epoch = newEpoch()
 		st.EpochMaps = ""
@@ -253,48 +236,28 @@ func (e *Engine) havoc(st *State, ms *ModSet) {
 		return
 	}
 	if ms.AllHeap {
-		for k, h := range st.Heaps {
-			st.Heaps[k] = mapLeaves(h, func(t *Term) *Term { return Fresh("hv:"+k, t.Sort) })
-		}
-		for k, m := range st.Mems {
-			st.Mems[k] = mapLeaves(m, func(t *Term) *Term { return Fresh("hv:"+k, t.Sort) })
-		}
-		for g, v := range st.Globs {
-			if e.cs.ConstGl[globKey(g)] {
-				continue
-			}
-			if _, ok := v.(*OpaqueV); ok {
-				continue
-			}
-			st.Globs[g] = mapLeaves(v, func(t *Term) *Term { return Fresh("hv:glob", t.Sort) })
-		}
+		e.havocHeaps(st, nil)
+		e.havocMems(st)
+		e.havocGlobs(st)
 		st.HavocAll++
 		st.Epoch = newEpoch()
 		st.EpochMaps = ""
 		e.growAlloc(st)
 	}
 	if ms.Maps && !ms.AllHeap {
-		for k, h := range st.Heaps {
-			if strings.HasPrefix(k, "map:") {
-				st.Heaps[k] = mapLeaves(h, func(t *Term) *Term { return Fresh("hv:"+k, t.Sort) })
-			}
-		}
+		e.havocHeaps(st, func(k string) bool { return strings.HasPrefix(k, "map:") })
 		st.HavocMaps++
 		st.EpochMaps = newEpoch()
 	}
 	if ms.Ev {
-		for k, g := range st.Ghost {
-			if strings.HasPrefix(k, "ev:") || k == "evLen" {
-				st.Ghost[k] = mapLeaves(g, func(t *Term) *Term { return Fresh("G:"+k, t.Sort) })
-			}
-		}
+		e.havocGhosts(st, func(k string) bool { return strings.HasPrefix(k, "ev:") || k == "evLen" }, "G:")
 		if _, ok := st.Ghost["evLen"]; !ok {
 			st.Ghost["evLen"] = Fresh("G:evLen", BV64)
 		}
 		st.HavocEv++
 		st.EpochEv = newEpoch()
 	}
-	for name := range ms.Ghosts {
+	for _, name := range sortedKeysB(ms.Ghosts) {
 		g := e.cs.Ghosts[name]
 		ctx := &EvalCtx{eng: e, cur: st, old: st}
 		t := ctx.resolveType(g.Type)
@@ -309,7 +272,7 @@ func (e *Engine) havoc(st *State, ms *ModSet) {
 		sort.Strings(ks)
 		return ks
 	}
-	for k := range ms.HeapAll {
+	for _, k := range sortedKeysB(ms.HeapAll) {
 		h := st.heapByKey(k, ms.heapT[k])
 		st.Heaps[k] = mapLeaves(h, func(t *Term) *Term { return Fresh("hv:"+k, t.Sort) })
 	}
@@ -323,7 +286,7 @@ func (e *Engine) havoc(st *State, ms *ModSet) {
 		}
 		st.Heaps[k] = h
 	}
-	for k := range ms.MemAll {
+	for _, k := range sortedKeysB(ms.MemAll) {
 		m := st.Mem(ms.memT[k])
 		st.Mems[k] = mapLeaves(m, func(t *Term) *Term { return Fresh("hv:"+k, t.Sort) })
 	}
@@ -352,7 +315,7 @@ func (e *Engine) havoc(st *State, ms *ModSet) {
 		}
 		st.Mems[k] = m
 	}
-	for g := range ms.Globals {
+	for _, g := range sortedGlobalSet(ms.Globals) {
 		t := globalElemType(g)
 		if isAggregate(t) {
 			st.StoreObject(t, globalRef(g), freshOf("hv:glob", t, nil, false))
@@ -475,7 +438,8 @@ func (e *Engine) checkFrame(p *Path, ms *ModSet, entry *State, exitKind string, 
 			check("mem", k, leaf, ms.MemAll[k], nil, ms.MemRefs[k])
 		}
 	}
-	for name, v := range st.Ghost {
+	for _, name := range sortedKeysV(st.Ghost) {
+		v := st.Ghost[name]
 		if strings.Contains(name, "!") || ms.Ghosts[name] {
 			continue
 		}
@@ -489,8 +453,9 @@ func (e *Engine) checkFrame(p *Path, ms *ModSet, entry *State, exitKind string, 
 			}
 		}
 	}
-	for g, v := range st.Globs {
-		if ms.Globals[g] || e.cs.ConstGl[globKey(g)] {
+	for _, g := range sortedGlobals(st.Globs) {
+		v := st.Globs[g]
+		if ms.Globals[g] || e.isConstGlobal(g) || ms.AllHeap {
 			continue
 		}
 		if _, ok := v.(*OpaqueV); ok {
